@@ -233,7 +233,16 @@ func runC05(c *Ctx) {
 				queueing = append(queueing, in)
 			}
 		})
-		for _, w := range callsToFn(fn, efdWrite) {
+		wakes := func(in ssa.Instruction) bool {
+			return doesDeep(in, func(x ssa.Instruction) bool { return isCallToFn(x, efdWrite) })
+		}
+		var wakeSites []ssa.CallInstruction
+		eachInstr(fn, func(in ssa.Instruction) {
+			if ci, ok := in.(ssa.CallInstruction); ok && wakes(in) {
+				wakeSites = append(wakeSites, ci)
+			}
+		})
+		for _, w := range wakeSites {
 			// only the waker write that follows an append in the same function is Post's wake-up
 			hasAppend := len(queueing) > 0
 			if !hasAppend {
@@ -242,13 +251,13 @@ func runC05(c *Ctx) {
 				}
 				continue
 			}
-			reach := reachableAvoiding(w, func(in ssa.Instruction) bool { return queues(fn, in, 2) })
+			reach := reachableAvoiding(w.(ssa.Instruction), func(in ssa.Instruction) bool { return queues(fn, in, 2) })
 			c.check(!reach, fn, "eventfd write", w.Pos(), "the handler is queued before the loop is woken", "the eventfd is written on a path on which the handler has not been appended yet: the loop can wake up, find nothing and sleep again (lost wake-up)")
 		}
 		// every path that queued a handler wakes the loop, unless it is skipped under a flag that the dispatcher
 		// re-arms before it takes the queue (wake-up coalescing done right)
 		// (a helper that only queues is judged at its call sites)
-		if len(queueing) > 0 && len(callsToFn(fn, efdWrite)) == 0 && allCallersSatisfy(p, fn, 1, func(caller *ssa.Function) bool {
+		if len(queueing) > 0 && len(wakeSites) == 0 && allCallersSatisfy(p, fn, 1, func(caller *ssa.Function) bool {
 			for _, cs := range callsToFn(caller, fn) {
 				if !queues(caller, cs.(ssa.Instruction), 2) {
 					return false
@@ -275,7 +284,7 @@ func runC05(c *Ctx) {
 					if in == a.Instr {
 						appended = true
 					}
-					if appended && isCallToFn(in, efdWrite) {
+					if appended && wakes(in) {
 						woke = true
 					}
 				}
